@@ -120,15 +120,20 @@ def TState.empty : TState := { total := [], free := [], used := [], pods := [] }
 def addPhantoms (total used : DevRes) : DevRes :=
   total ++ (used.filter (fun p => !drHas total p.1)).map (fun p => (p.1, []))
 
+/-- one entry of the rebuilt free map: `SubtractWithNonNegativeResult(total[minor], used[minor])` for a used minor,
+    a copy of the total otherwise -/
+def freeEntry (used : DevRes) (m : Nat) (t : RL) : RL :=
+  match drGet used m with
+  | some u => rlSubNN t u
+  | none => t
+
 /-- device_cache.go resetDeviceFree:
     `free = DeepCopy(total); for minor, u in used { free[minor] = SubtractWithNonNegativeResult(total[minor], u) }` -/
 def resetFree (s : TState) : TState :=
   let t := addPhantoms s.total s.used
   { s with
     total := t
-    free := t.map (fun p => (p.1, match drGet s.used p.1 with
-                                   | some u => rlSubNN p.2 u
-                                   | none => p.2)) }
+    free := t.map (fun p => (p.1, freeEntry s.used p.1 p.2)) }
 
 /-- updateDeviceUsed, add = true -/
 def usedAdd (u : DevRes) : List (Nat × RL) → DevRes
